@@ -19,6 +19,7 @@ THEOREMS = [
     'C13_toolchain_too_large_every_request', 'C13_toolchain_fits_every_request',
     'C13_rlibs_complete_when_object_code_needed', 'C13_rlib_never_missing', 'C13_rlib_missing_refuted_before_fix',
     'C13_simplify_same_file', 'C13_rlib_deps_current',
+    'C13_route_handler_faults_fall_back', 'C13_alias_toolchains_match', 'C13_alias_canonical_key_refuted',
     'C13_dist_args', 'C13_dist_args_ignore_pp_dep', 'C13_dist_lang_known',
     'C13_dist_args_refuted_before_fix', 'C13_dist_lang_refuted_before_fix',
 ]
@@ -933,6 +934,95 @@ def mon_rustdeps(case, out):
     return vs
 
 
+# ------------------------------------------------------------------ translator, legs routes / aliases
+
+_ROUTES = {'table': None}
+
+
+def translate(rep):
+    from translator import c13_routes
+    from .. import pipeline
+    try:
+        _ROUTES['table'] = c13_routes.write(pipeline.REPO, pipeline.COQ)
+        rep.oblige('translate:c13_routes', True, '%d route stages' % len(_ROUTES['table']))
+    except Exception as e:   # unrecognisable source = broken obligation (a stale Gen file is kept)
+        rep.oblige('translate:c13_routes', False, repr(e))
+
+
+def route_table():
+    if _ROUTES['table'] is None:
+        from translator import c13_routes
+        from .. import pipeline
+        _ROUTES['table'] = c13_routes.read(pipeline.REPO)
+    return _ROUTES['table']
+
+
+CLIENT_ROUTES = ('alloc_job', 'submit_toolchain', 'run_job')
+
+
+def gen_routes(rng, tier):
+    """one request per stage of every route the client talks to, as the tree's src/dist/http.rs answers it, plus the
+    neighbouring status codes"""
+    out = []
+    lcs = [[b'exit', 0, 0, [0]], [b'exit', 0, 256, []], b'spawn_err']
+    for r, k, c in route_table():
+        if r in CLIENT_ROUTES:
+            for lc in lcs:
+                out.append([r.encode(), k.encode(), c, lc])
+    for r in CLIENT_ROUTES:
+        for c in (400, 401, 403, 404, 408, 429, 499, 500, 502, 503, 504):
+            out.append([r.encode(), b'probe', c, lcs[0]])
+    return out
+
+
+def mon_routes(case, out):
+    r, kind, code, lc = case
+    vs = []
+    try:
+        o, dt, st, fsl, ran, src = out
+        lo, lraw = local_oracle([1, 1, b'ok', b'ok', [b'ok', 1], b'ok', b'x', b'ok', lc, []])
+        if kind in (b'handler', b'internal'):
+            # a fault of the scheduler / build server itself, not of the request: must be absorbed by falling back
+            if not ran or o != lo:
+                vs.append('the %s route answers a failure of its own %s with status %d and the request ends as %s instead '
+                          'of being compiled locally (%s)' % (r.decode(), kind.decode(), code, o.decode(), lo.decode()))
+        if o == b'err_http' and not (400 <= code < 500):
+            vs.append('status %d surfaced as an HTTP client error' % code)
+        if o == b'panic':
+            vs.append('panic')
+    except Exception as e:
+        vs.append('malformed routes observation %r (%s)' % (out, e))
+    return vs
+
+
+def gen_aliases(rng, tier):
+    import itertools
+    out = []
+    for n in (1, 2, 3):
+        for seq in itertools.product((0, 1, 2, 3), repeat=n):
+            out.append(list(seq))
+    for _ in range(200 if tier == 'thorough' else 20):
+        out.append([rng.below(4) for _ in range(rng.range(3, 7))])
+    return out
+
+
+def mon_aliases(case, out):
+    vs = []
+    names = ['gcc', 'cc -> gcc', 'gcc-12 -> gcc', 'gcc2 (copy)']
+    try:
+        for i, (a, o) in enumerate(zip(case, out)):
+            cls, dt, m = o
+            if m == [0]:
+                vs.append('request %d (compiler `%s`): the job was run in a toolchain that was packaged for another name of the '
+                          'compiler and does not contain the executable it runs' % (i + 1, names[a]))
+            if cls != b'miss' or dt != b'dist_ok':
+                vs.append('request %d (compiler `%s`) ended as %s/%s; the same source compiles under every other name'
+                          % (i + 1, names[a], cls.decode(), dt.decode()))
+    except Exception as e:
+        vs.append('malformed aliases observation %r (%s)' % (out, e))
+    return vs
+
+
 # ------------------------------------------------------------------ legs
 
 def legs(tier):
@@ -1001,6 +1091,20 @@ def _legs(tier):
                  'inputs of top packaged by the real Rust::new / parse_arguments / generate_hash_key / into_dist_packagers / '
                  'write_inputs with ONE compiler object (one RlibDepReader cache) per history; bdep / ddep are rebuilt to the '
                  'same path with or without a reference to cdep'),
+        Leg('routes', gen_routes, monitor=mon_routes, shards=8,
+            stats=lambda case, out: ['route=%s/%s/%d' % (case[0].decode(), case[1].decode(), case[2])],
+            nontrivial=lambda case, out: case[1] != b'probe',
+            rule='for every stage of the routes the client talks to, AS READ FROM src/dist/http.rs by translator/c13_routes.py '
+                 '(plus 11 probe statuses per route): alloc_job through the REAL dist::http::Client against a stub scheduler on '
+                 'localhost answering that status, submit_toolchain / run_job through the scripted client with the error class '
+                 'of that status; then the real dist_or_local_compile x 3 local outcomes'),
+        Leg('aliases', gen_aliases, monitor=mon_aliases, shards=16,
+            stats=lambda case, out: ['n=%d' % len(case)],
+            shrink=lambda case: (case[:i] + case[i + 1:] for i in range(len(case)) if len(case) > 1),
+            nontrivial=lambda case, out: len(set(case)) > 1,
+            rule='every sequence of up to 3 requests (plus PRNG sequences of 3-6) over four names of one compiler binary (gcc, '
+                 'two symlinks to it, a copy) through ONE real ClientToolchains: real compiler detection, C hasher (weak '
+                 'toolchain key), get_cached_or_compile; the scripted build server only runs executables its toolchain contains'),
         Leg('args', gen_args, monitor=mon_args, stats=stats_args, shrink=shrink_args, neighbours=neighbours_args,
             nontrivial=lambda case, out: out != b'err' and bool(out[1]),
             rule='exhaustive gcc/clang x rewrite_includes_only x 14 languages x suppress x double-dash with all argument '
@@ -1014,6 +1118,12 @@ def _legs(tier):
 def extra(rep, known):
     """Every `-x` value the model can put on a remote command line is accepted by the installed clang and gcc
     ("language not recognized" is the failure of the pre-fix objective-c++-header-cpp-output)."""
+    # side condition of C13_route_handler_faults_fall_back over the regenerated route table (after the legs, so that a tree
+    # that breaks it has already been searched for a concrete failing request)
+    from .. import pipeline
+    ok, o = pipeline.coq_make(['theories/Gen/C13Routes_ok.vo'])
+    rep.oblige('side-condition:routes_ok (Gen/C13Routes_ok.v)', ok, o[-1500:] if not ok else 'vm_compute')
+
     bad = []
     tried = 0
     with tempfile.TemporaryDirectory(dir='/dev/shm') as d:
